@@ -192,7 +192,7 @@ def redisCmd (c : SCmd) : Option Redis.Cmd :=
   match c.op with
   | "lock" => some (.lock c.c) | "trylock" => some (.tryLock c.c) | "unlock" => some (.unlock c.c)
   | "ff" => some (.ff c.dt) | "lockasync" => some (.lockAsync c.c) | "join" => some (.join c.c)
-  | "observe" => some (.observe c.c)
+  | "observe" => some (.observe c.c) | "cancelctx" => some (.cancelCtx c.c)
   | _ => none
 
 def etcdCmd (c : SCmd) : Option Etcd.Cmd :=
@@ -200,19 +200,20 @@ def etcdCmd (c : SCmd) : Option Etcd.Cmd :=
   | "lock" => some (.lock c.c) | "trylock" => some (.tryLock c.c) | "unlock" => some (.unlock c.c)
   | "lockasync" => some (.lockAsync c.c) | "join" => some (.join c.c)
   | "revoke" => some (.revoke c.c) | "observe" => some (.observe c.c)
-  | "sleep" => some (.sleep c.dt)
+  | "sleep" => some (.sleep c.dt) | "cancelctx" => some (.cancelCtx c.c)
+  | "expire" => some (.revoke c.c)   -- keepalive stopped, the lease ran out by itself: same transition
   | _ => none
 
 def opOf (s : String) : Spec.Op :=
   match s with
   | "lock" => .lock | "trylock" => .tryLock | "unlock" => .unlock | "ff" => .ff | "lockasync" => .lockAsync
-  | "join" => .join | "revoke" => .revoke | "observe" => .observe | "sleep" => .sleep | _ => .unknown
+  | "join" => .join | "revoke" => .revoke | "expire" => .revoke | "observe" => .observe | "sleep" => .sleep | _ => .unknown
 
 def outOf (s : String) : Spec.Out :=
   match s with
   | "acquired" => .acquired
   | "not-obtained" => .refused | "locked" => .refused | "timeout" => .refused | "session-expired" => .refused
-  | "blocked" => .blocked | "ctx-live" => .ctxLive | "ctx-session-done" => .ctxDone | "ctx-cancelled" => .ctxDone
+  | "blocked" => .blocked | "ctx-live" => .ctxLive | "ctx-session-done" => .ctxDone | "ctx-cancelled" => .ctxPlain
   | _ => .other
 
 def flagOf (s : String) : Spec.Flag :=
@@ -258,7 +259,7 @@ def handleSched (j : Json) : Json :=
   let scmds : List Spec.SCmd := cmds.map fun c => ⟨opOf c.op, c.c, c.dt⟩
   let fin := Spec.specRun redis ttl wait {} scmds (ires.map outOf) (islow.map flagOf)
   let hasAsync := cmds.any (·.op == "lockasync")
-  let hasLoss := cmds.any (fun c => c.op == "revoke" || c.op == "observe")
+  let hasLoss := cmds.any (fun c => c.op == "revoke" || c.op == "observe" || c.op == "expire")
   let contended := ires.any (fun r => r == "not-obtained" || r == "locked" || r == "timeout" || r == "blocked")
   let cls := backend ++ (if hasLoss then "-loss" else if hasAsync then "-overlap" else "-seq") ++
     (if contended then "-contended" else "") ++ (if fin.overlap then "-lease-gone" else "")
